@@ -7,6 +7,7 @@ package dns
 
 import (
 	"fmt"
+	"math"
 	"net/netip"
 	"slices"
 	"strconv"
@@ -78,6 +79,10 @@ func (b *ResponseMatcherBuilder) addIp(f *config_parser.Function, cidrs []netip.
 	upstreamId, err := b.upstreamToId(upstream.Name)
 	if err != nil {
 		return err
+	}
+	if len(b.ipSet) > math.MaxUint16 {
+		// Value is 16 bits wide: one more set would be matched against the address set of another rule.
+		return fmt.Errorf("too many ip() sets in dns response routing: at most %v are supported", math.MaxUint16+1)
 	}
 	rule := responseMatchSet{
 		Value:    uint16(len(b.ipSet)),
